@@ -67,3 +67,38 @@ def check_key_normalisation(model: RepoModel, rep, RID: str, rel: str = "prepara
     if n_sites < min_sites:
         raise AnalysisError(f"{rel}: no lookup of a normalised-key table recognised")
     rep.analysed["lookups of normalised-key tables"] = n_sites
+
+
+def check_import_path_join(model: RepoModel, rep, RID: str):
+    """basics/import_hierarchy.py::get_import_path_from_stmt composes `<source>.<name>`.  For `from . import x` the source consists of dots
+    only and already ends the package part: the joining dot must not be added unconditionally, or it is counted as one more level."""
+    m = model.module("basics/import_hierarchy.py")
+    fs = [f for f in m.all_funcs() if f.name == "get_import_path_from_stmt"]
+    if not fs:
+        raise AnalysisError("get_import_path_from_stmt vanished")
+    f = fs[0]
+    joins = []
+    for n in walk_no_nested(f.node):
+        v = None
+        if isinstance(n, ast.AugAssign) and isinstance(n.op, ast.Add):
+            v = n.value
+        elif isinstance(n, ast.Assign) and isinstance(n.value, ast.BinOp) and isinstance(n.value.op, ast.Add):
+            v = n.value
+        if v is None:
+            continue
+        if any(isinstance(c, ast.Constant) and c.value == "." for c in ast.walk(v)):
+            joins.append(n)
+    if not joins:
+        raise AnalysisError("get_import_path_from_stmt: the joining dot not found")
+    for j in joins:
+        key = f"{f.ref}::joining dot `{norm(j)}`"
+        guards = [i for i in walk_no_nested(f.node) if isinstance(i, ast.If) and any(x is j for b in i.body + i.orelse for x in ast.walk(b))
+                  and any(isinstance(c, ast.Call) and isinstance(c.func, ast.Attribute) and c.func.attr in ("endswith", "strip", "rstrip", "lstrip")
+                          for c in ast.walk(i.test))]
+        if guards:
+            rep.holds(RID, key, m.rel, j.lineno, f"added only under `{norm(guards[0].test)}`")
+        else:
+            rep.violation(RID, key, m.rel, j.lineno,
+                          f"the dot that joins source and name is added whatever the source is: for `from . import x` the path becomes `..x`, two "
+                          f"leading dots, and the import is searched one package too high (a same-named module of the parent package is bound)")
+    rep.analysed["import path joins"] = len(joins)
